@@ -321,6 +321,8 @@ func genHrp(t *rapid.T, max int) string {
 				c = '1'
 			case 1:
 				c = byte(rapid.IntRange(33, 126).Draw(t, "hrp_any"))
+			case 2: // first and last characters of the 32-character rows of ASCII, and of the letters
+				c = rapid.SampledFrom([]byte{'!', '?', '@', '[', '^', '_', '`', 'a', 'z', '{', '~', '0', '9'}).Draw(t, "hrp_edge")
 			default:
 				c = byte(rapid.IntRange('a', 'z').Draw(t, "hrp_az"))
 			}
